@@ -191,6 +191,33 @@ def check_ini(db, rep):
         rep.fail('D.ini', 'ini/re-initialise', unit.loc(fI), 'fresh clock, state arrays and buffer cache', bad, fI['name'])
     else:
         rep.ok('D.ini')
+    check_sized_ctor(db, rep)
+
+
+def check_sized_ctor(db, rep):
+    """the constructor taking the problem shape and the initial time starts the clock at that time (it is the other
+    way, besides ini, to start a fresh clock)"""
+    unit = db.unit('SQuIDS')
+    fs = [f for f in db.find('SQuIDS', 'squids::SQuIDS::SQuIDS', 5) if f.get('ctor')]
+    if len(fs) != 1:
+        raise AnalysisBroken('sized constructor SQuIDS(nx,dim,nrho,nscalar,ti): expected one definition, found %d' % len(fs))
+    fC = fs[0]
+    hooks = sm.SquidsHooks(3)
+    it = Interp(unit, hooks)
+    this = Cell(Obj(sm.SQ, None, 'solver'), None, 0, 'solver')
+    try:
+        it.call(fC, this, [2, 3, 2, 1, Poly.var('t0')])
+    except Thrown as t:
+        rep.fail('D.ini', 'SQuIDS(nx,dim,nrho,nscalar,ti)', unit.loc(t.node), 'a solver of the given shape', 'throw: %s' % t.what, fC['name'])
+        return
+    t, ti = sm.field(this, 't'), sm.field(this, 't_ini')
+    shape = tuple(sm.field(this, k) for k in ('nx', 'nsun', 'nrhos', 'nscalars'))
+    if not (isinstance(t, Poly) and t.equals(Poly.var('t0')) and isinstance(ti, Poly) and ti.equals(Poly.var('t0'))):
+        rep.fail('D.ini', 'SQuIDS(nx,dim,nrho,nscalar,ti)/clock', unit.loc(fC), 'clock and initial time start at the given ti', 't=%s t_ini=%s' % (t, ti), fC['name'])
+    elif shape != (2, 3, 2, 1):
+        rep.fail('D.ini', 'SQuIDS(nx,dim,nrho,nscalar,ti)/shape', unit.loc(fC), 'shape (nx,nsun,nrhos,nscalars) = (2,3,2,1)', str(shape), fC['name'])
+    else:
+        rep.ok('D.ini')
 
 
 def check_moves(db, rep):
